@@ -14,7 +14,14 @@ impl AsyncReadExt for RdH {
     #[verifier::external_body] fn read_u32(&mut self) -> (r: io::Result<u32>) { unimplemented!() }
     #[verifier::external_body] fn read(&mut self, buf: &mut [u8]) -> (r: io::Result<usize>) { unimplemented!() }
 }
+pub struct Elapsed;
+pub struct Duration { pub s: u64 }
+impl Duration { #[verifier::external_body] pub fn from_secs(s: u64) -> (r: Duration) ensures r.s == s { unimplemented!() } #[verifier::external_body] pub fn from_millis(s: u64) -> (r: Duration) { unimplemented!() } }
 pub mod tokio {
+    // time::timeout(d, fut): after async erasure the awaited operation has run to completion (its result is x); the timer may
+    // still fire, in which case the result is dropped
+    pub mod time { use super::super::*; pub use super::super::Duration; pub use super::super::Elapsed;
+        #[verifier::external_body] pub fn timeout<D, T>(d: D, x: T) -> (r: std::result::Result<T, Elapsed>) ensures r is Ok ==> r->Ok_0 == x { unimplemented!() } }
     pub mod io { use super::super::*; #[verifier::external_body] pub fn split(s: TlsS) -> (r: (RdH, WrH)) ensures r.0.a == s.avail, r.1.written == Seq::<u8>::empty() { unimplemented!() } }
     pub mod sync { pub mod mpsc { use super::super::super::*;
         pub struct UnboundedSender<T> { pub _p: std::marker::PhantomData<T> }
